@@ -70,8 +70,14 @@ class Ctx:
     def translate(self, wasm_bytes, name, opts=()):
         """Translate a module with the freshly built w2c2. Returns (dir, cfile, hfile)."""
         exe = self.w2c2()
-        d = self.path("gen", name, "x")
+        # one directory per (module name, option set): two translations of the same module name must never overwrite each other
+        key = name + ("" if not opts else "__" + re.sub(r"[^A-Za-z0-9]+", "_", " ".join(opts)))
+        d = self.path("gen", key, "x")
         d = os.path.dirname(d)
+        if not hasattr(self, "_translated"):
+            self._translated = {}
+        if self._translated.setdefault(key, bytes(wasm_bytes)) != bytes(wasm_bytes):
+            raise RuntimeError("two different modules translated under the same name and options: %s" % key)
         wpath = os.path.join(d, name + ".wasm")
         with open(wpath, "wb") as f:
             f.write(wasm_bytes)
